@@ -181,6 +181,9 @@ def make_target(target, jobs=16, timeout=3000):
     # refresh the dependency file under one global lock so that concurrent checks never
     # rewrite .Makefile.d at the same time
     sh('flock %s timeout 300 make .Makefile.d 2>&1' % os.path.join(BUILD, '.makefile.lock'), cwd=COQ, timeout=400)
+    # one build at a time across concurrent checks: two makes with different target sets must never compile the
+    # same shared dependency simultaneously (builds are incremental, so this costs nothing on a warm tree)
+    lock = os.path.join(BUILD, '.make.global.lock')
     cmd = 'flock %s timeout %d make -j%d %s 2>&1' % (lock, timeout, jobs, target)
     return sh(cmd, cwd=COQ, timeout=timeout + 600)
 
